@@ -130,8 +130,12 @@ def repo_universe(maxsize: int, atoms=ATOMS, unary=UNARY, binary=BINARY, extra_m
     by: dict[int, list] = {1: list(atoms)}
     if extra_meta:
         by[1] = by[1] + [P.MetaVar(0, e_fresh=(P.EVar(0),)), P.MetaVar(1, s_fresh=(P.SVar(0),)),
-                         P.MetaVar(2, positive=(P.SVar(0),)), P.ESubst(P.MetaVar(0), P.EVar(0), P.EVar(1)),
-                         P.SSubst(P.MetaVar(1), P.SVar(0), P.Symbol('s0'))]
+                         P.MetaVar(2, positive=(P.SVar(0),)), P.MetaVar(2, negative=(P.SVar(0),)),
+                         P.Instantiate(P.Implies(P.MetaVar(0), P.MetaVar(1)), frozendict({0: P.EVar(0)})),
+                         P.Instantiate(P._and(P.MetaVar(0), P.MetaVar(2)), frozendict({0: P.MetaVar(1)}))]
+    def meta_headed(a):
+        e = expand(a)
+        return e[0] in ('mv', 'esub', 'ssub') and isinstance(a, (P.MetaVar, P.ESubst, P.SSubst))
     for n in range(2, maxsize + 1):
         cur = []
         for name, f in unary:
@@ -140,11 +144,24 @@ def repo_universe(maxsize: int, atoms=ATOMS, unary=UNARY, binary=BINARY, extra_m
                     if not rm.positive(expand(a), 0):
                         continue
                 cur.append(f(a))
+        if extra_meta:
+            for a in by[n - 1]:
+                if rm.positive(expand(a), 1):
+                    cur.append(P.Mu(1, a))
         for k in range(1, n - 1):
             for name, f in binary:
                 for a in by[k]:
                     for b in by[n - 1 - k]:
                         cur.append(f(a, b))
+            if extra_meta:
+                # pending substitutions with every plug: head must be a metavariable or a pending substitution
+                for a in by[k]:
+                    if not meta_headed(a):
+                        continue
+                    for b in by[n - 1 - k]:
+                        for x in (0, 1):
+                            cur.append(P.ESubst(a, P.EVar(x), b))
+                        cur.append(P.SSubst(a, P.SVar(0), b))
         by[n] = cur
     out = []
     for n in range(1, maxsize + 1):
